@@ -515,8 +515,8 @@ Theorem cmp_op other : refines_op (OCmp other).
 Proof.
   intros s w HW Hf Ho. cbn [op_ok] in Ho. destruct Ho as [Ho _].
   unfold refines_at. cbn [spec_step].
-  pose proof (buf_partial_cmp_ok val_cmp other s w HW Ho Hf) as H.
-  destruct (spec_cmp val_cmp (abs s) (abs other)) as [r evs]. cbn [fst snd] in H.
+  pose proof (buf_partial_cmp_ok val_ord other s w HW Ho Hf) as H.
+  destruct (spec_cmp val_ord (abs s) (abs other)) as [r evs]. cbn [fst snd] in H.
   exists (OutOrd r), s. cbn [sr_evs sr_nid sr_out sr_list].
   split; [|split; [reflexivity|auto]].
   cbn [exec]. unfold buf_cmp. erewrite bind_ok by exact H. reflexivity.
